@@ -324,6 +324,15 @@ func showEndpoint(ctx context.Context, v any) (any, error) {
 	if strings.HasPrefix(p.ID, "boom-") {
 		return nil, fmt.Errorf("internal %s", p.ID)
 	}
+	// undeclared goa errors carrying flags: they go through the default error encoder
+	switch {
+	case strings.HasPrefix(p.ID, "busy-"):
+		return nil, goa.TemporaryError("busy", "busy %s", p.ID)
+	case strings.HasPrefix(p.ID, "slow-"):
+		return nil, goa.PermanentTimeoutError("slow", "slow %s", p.ID)
+	case strings.HasPrefix(p.ID, "late-"):
+		return nil, goa.TemporaryTimeoutError("late", "late %s", p.ID)
+	}
 	view := "default"
 	if p.View != nil {
 		view = *p.View
@@ -338,8 +347,28 @@ func addEndpoint(ctx context.Context, v any) (any, error) {
 	return &itemResult{View: "default", Item: itemBody{ID: p.Shelf, Name: p.Name, Count: &c, Tags: p.Tags, Tag: p.Token}}, nil
 }
 
+// preRoutingVars is a middleware for Muxer.Use that asks the muxer for the path variables
+// and the pattern of a request BEFORE it is routed, as logging / tracing / auth middlewares
+// do: every value must occur in this request's own path.
+func preRoutingVars(mux goahttp.ResolverMuxer, fail func(what string, in any)) func(http.Handler) http.Handler {
+	return func(next http.Handler) http.Handler {
+		return http.HandlerFunc(func(w http.ResponseWriter, r *http.Request) {
+			vars := mux.Vars(r)
+			pat := mux.ResolvePattern(r)
+			for k, v := range vars {
+				if !strings.Contains(r.URL.Path, v) {
+					fail(fmt.Sprintf("before routing, Vars(%s %s) = %v (pattern %q): %s=%q is not in this request's path", r.Method, r.URL.Path, vars, pat, k, v), r.URL.Path)
+					break
+				}
+			}
+			next.ServeHTTP(w, r)
+		})
+	}
+}
+
 func newHandServer(errs *collector) *httptest.Server {
 	mux := goahttp.NewMuxer()
+	mux.Use(preRoutingVars(mux, func(what string, in any) { errs.fail("mux-vars-foreign/pre-routing", what, in) }))
 	dec, enc := goahttp.RequestDecoder, goahttp.ResponseEncoder
 	eh := func(ctx context.Context, w http.ResponseWriter, err error) {
 		errs.fail("echo-errhandler-called", "a response could not be encoded: "+err.Error(), nil)
@@ -377,7 +406,7 @@ type echoResp struct {
 var echoAccepts = []string{"application/json", "application/xml", "", "application/json; charset=utf-8", "application/xml; charset=utf-8",
 	"application/xml;q=0.9", "application/json;q=0.2", "application/vnd.c20+json", "application/xml, application/json;q=0.5", "*/*", "APPLICATION/XML"}
 
-var echoKinds = []string{"blob", "blob", "show", "show", "show-tiny", "show-bad-id", "show-bad-query", "show-missing", "show-boom", "add", "add", "add-bad-count", "add-bad-json", "no-route"}
+var echoKinds = []string{"show-busy", "show-slow", "show-late", "show-boom", "blob", "blob", "show", "show", "show-tiny", "show-bad-id", "show-bad-query", "show-missing", "show-boom", "add", "add", "add-bad-count", "add-bad-json", "no-route"}
 
 func genEchoReq(r *vh.RNG, g, k int, tag string) echoReq {
 	id := fmt.Sprintf("%s%dx%dx%d", tag, g, k, r.Intn(100000))
@@ -410,6 +439,12 @@ func genEchoReq(r *vh.RNG, g, k int, tag string) echoReq {
 		q.Headers["Accept"] = "application/json"
 	case "show-boom":
 		q.Method, q.Path = "GET", "/items/boom-"+id
+	case "show-busy":
+		q.Method, q.Path = "GET", "/items/busy-"+id
+	case "show-slow":
+		q.Method, q.Path = "GET", "/items/slow-"+id
+	case "show-late":
+		q.Method, q.Path = "GET", "/items/late-"+id
 	case "add":
 		q.Method, q.Path = "POST", "/shelves/s-"+id+"/items"
 		q.Headers["Authorization"] = "tok-" + id
@@ -496,6 +531,15 @@ func checkEcho(q echoReq, got echoResp) string {
 		_ = json.Unmarshal([]byte(got.Body), &e)
 		return e
 	}
+	// the whole error response is compared: status, name, the message (which names this
+	// request's own value) and the three flags
+	wantErr := func(status int, name, inMsg string, temporary, timeout, fault bool) string {
+		e := errBody()
+		if got.Status != status || e.Name != name || !strings.Contains(e.Message, inMsg) || e.Temporary != temporary || e.Timeout != timeout || e.Fault != fault {
+			return fmt.Sprintf("expected status %d name %q message naming %q temporary=%v timeout=%v fault=%v, got %d %s", status, name, inMsg, temporary, timeout, fault, got.Status, got.Body)
+		}
+		return ""
+	}
 	switch q.Kind {
 	case "blob":
 		if got.Status != 200 || got.CT != "text/plain" {
@@ -533,14 +577,18 @@ func checkEcho(q echoReq, got echoResp) string {
 			return fmt.Sprintf("tag/q/count %q/%q are not those of this request", sp(it.Tag), sp(it.Q))
 		}
 	case "show-bad-id":
-		e := errBody()
-		if got.Status != 400 || e.Name != "invalid_pattern" || !strings.Contains(e.Message, "BAD_"+id) || !strings.Contains(e.Message, "id must match") {
-			return fmt.Sprintf("expected 400 invalid_pattern naming id and value BAD_%s, got %d %s", id, got.Status, got.Body)
+		if bad := wantErr(400, "invalid_pattern", "BAD_"+id, false, false, false); bad != "" {
+			return bad
+		}
+		if !strings.Contains(errBody().Message, "id must match") {
+			return "validation error does not name the field id: " + got.Body
 		}
 	case "show-bad-query":
-		e := errBody()
-		if got.Status != 400 || !strings.Contains(e.Message, "huge-"+id) || !strings.Contains(e.Message, "length of q") {
-			return fmt.Sprintf("expected 400 naming view value huge-%s and q, got %d %s", id, got.Status, got.Body)
+		if bad := wantErr(400, "invalid_enum_value", "huge-"+id, false, false, false); bad != "" {
+			return bad
+		}
+		if !strings.Contains(errBody().Message, "length of q") {
+			return "merged validation error does not name q: " + got.Body
 		}
 	case "show-missing":
 		var nf notFound
@@ -549,10 +597,13 @@ func checkEcho(q echoReq, got echoResp) string {
 			return fmt.Sprintf("expected 404 not_found carrying id missing-%s, got %d %s", id, got.Status, got.Body)
 		}
 	case "show-boom":
-		e := errBody()
-		if got.Status != 500 || !e.Fault || !strings.Contains(e.Message, "internal boom-"+id) {
-			return fmt.Sprintf("expected 500 fault carrying boom-%s, got %d %s", id, got.Status, got.Body)
-		}
+		return wantErr(500, "fault", "internal boom-"+id, false, false, true)
+	case "show-busy":
+		return wantErr(503, "busy", "busy busy-"+id, true, false, false)
+	case "show-slow":
+		return wantErr(408, "slow", "slow slow-"+id, false, true, false)
+	case "show-late":
+		return wantErr(504, "late", "late late-"+id, true, true, false)
 	case "add":
 		if got.Status != 201 {
 			return fmt.Sprintf("status %d, expected 201: %s", got.Status, got.Body)
@@ -574,21 +625,18 @@ func checkEcho(q echoReq, got echoResp) string {
 			return fmt.Sprintf("echo %s is not the payload of this request %s", got.Body, q.Body)
 		}
 	case "add-bad-count":
-		e := errBody()
 		var sent struct{ Count int }
 		_ = json.Unmarshal([]byte(q.Body), &sent)
-		if got.Status != 400 || e.Name != "invalid_range" || !strings.Contains(e.Message, "body.count") || !strings.Contains(e.Message, fmt.Sprint(sent.Count)) {
-			return fmt.Sprintf("expected 400 invalid_range naming body.count and %d, got %d %s", sent.Count, got.Status, got.Body)
+		if bad := wantErr(400, "invalid_range", fmt.Sprint(sent.Count), false, false, false); bad != "" {
+			return bad
+		}
+		if !strings.Contains(errBody().Message, "body.count") {
+			return "validation error does not name body.count: " + got.Body
 		}
 	case "add-bad-json":
-		e := errBody()
-		if got.Status != 400 || e.Name != "decode_payload" {
-			return fmt.Sprintf("expected 400 decode_payload, got %d %s", got.Status, got.Body)
-		}
+		return wantErr(400, "decode_payload", "", false, false, false)
 	case "no-route":
-		if got.Status != 404 {
-			return fmt.Sprintf("expected 404, got %d", got.Status)
-		}
+		return wantErr(404, "fault", "404 page not found", false, false, true)
 	}
 	return ""
 }
